@@ -1,5 +1,6 @@
 import Agd.Gen.TrC20
 import Agd.Lemmas.Config
+import Agd.Lemmas.ConfigShape
 /-!
 # C20: the section validators of the model accept exactly what the translated source accepts
 
@@ -1156,6 +1157,108 @@ example : (configuration_validateConnLimit (confOf (genRl { dist with clResume :
     some true := by decide
 example : dist.pRl = true ∧ dist.pCl = true ∧ dist.clEnabled = true := by decide
 
+/-! ### `serverGroups.collectSessTicketPaths` (round 5: the repaired function)
+
+Translated with `trace`: the result is the list of calls on the sorted set.  `builder.initTLSManager`
+hands the returned paths to the TLS manager. -/
+
+/-- The session-key files a group contributes: those of its `tls` section, nothing without one. -/
+def groupKeys : Option S_cmd_serverGroup → List String
+  | some g => match g.TLS with
+    | some t => t.SessionKeys
+    | none => []
+  | none => []
+
+def addCalls (ks : List String) : List (String × List String) := ks.map fun k => ("Add", [k])
+
+theorem addLoop (ρ : Type) (ks : List String) (i : Int) (tr : List (String × List String)) :
+    goRangeFrom (σ := List (String × List String)) (ρ := ρ) i ks tr
+      (fun st (_ : Int) (k : String) => .next (st ++ [("Add", [k])])) = .inl (tr ++ addCalls ks) := by
+  induction ks generalizing i tr with
+  | nil => simp [goRangeFrom, addCalls]
+  | cons k ks ih => simp [goRangeFrom, ih, addCalls]
+
+theorem foldl_addCalls (gs : List (Option S_cmd_serverGroup)) (tr : List (String × List String)) :
+    gs.foldl (fun tr g => tr ++ addCalls (groupKeys g)) tr = tr ++ addCalls (gs.flatMap groupKeys) := by
+  induction gs generalizing tr with
+  | nil => simp [addCalls]
+  | cons g gs ih =>
+    rw [List.foldl_cons, ih, List.flatMap_cons]
+    simp [addCalls, List.append_assoc]
+
+/-- **`collectSessTicketPaths` after the fix**, for every list of groups without nil group pointers
+(what `serverGroups.validate` guarantees) and *whether or not* the groups have a `tls` section: no
+panic; the set is created, every session key of every group that has a section is added in file
+order, nothing else, and the values of the set are returned. -/
+theorem collectSessTicketPaths_trace (gs : List (Option S_cmd_serverGroup)) (set : AbsPtr) (vals : List String)
+    (h : ∀ g ∈ gs, g ≠ none) :
+    serverGroups_collectSessTicketPaths gs set vals =
+      some (vals, [("NewSortedSliceSet", [])] ++ addCalls (gs.flatMap groupKeys) ++ [("Values", [])]) := by
+  unfold serverGroups_collectSessTicketPaths
+  simp only [goRange?]
+  rw [(goRangeFrom?_fold (fun _ => True) (fun tr g => tr ++ addCalls (groupKeys g)) _ gs 0 _ trivial ?_).1]
+  · rw [foldl_addCalls]; simp
+  · intro tr i g hg _
+    cases g with
+    | none => exact absurd rfl (h none hg)
+    | some g' =>
+      cases ht : g'.TLS with
+      | none => simp [ht, groupKeys, addCalls]
+      | some t => simp [ht, groupKeys, goRange, addLoop]
+
+/-- It never panics on validated groups, with or without `tls` sections. -/
+theorem collectSessTicketPaths_total (gs : List (Option S_cmd_serverGroup)) (set : AbsPtr) (vals : List String)
+    (h : ∀ g ∈ gs, g ≠ none) : serverGroups_collectSessTicketPaths gs set vals ≠ none := by
+  rw [collectSessTicketPaths_trace gs set vals h]; simp
+
+/-- A plain-DNS-only group (no `tls` section — the input on which the tree as found crashed) next to
+an encrypted one: only the keys of the latter are added. -/
+def plainGroup : Option S_cmd_serverGroup :=
+  some { DDR := none, TLS := none, Name := "plain", FilteringGroup := "default", Servers := [], ProfilesEnabled := false }
+def tlsGroup : Option S_cmd_serverGroup :=
+  some { DDR := none, TLS := some { Certificates := [], SessionKeys := ["k1", "k0"], DeviceIDWildcards := [] },
+         Name := "tls", FilteringGroup := "default", Servers := [], ProfilesEnabled := false }
+example : serverGroups_collectSessTicketPaths [plainGroup, tlsGroup] true ["k0", "k1"] =
+    some (["k0", "k1"], [("NewSortedSliceSet", []), ("Add", ["k1"]), ("Add", ["k0"]), ("Values", [])]) := by decide
+example : serverGroups_collectSessTicketPaths [plainGroup] true [] = some ([], [("NewSortedSliceSet", []), ("Values", [])]) := by
+  decide
+/-- Only a nil group pointer is still dereferenced. -/
+example : serverGroups_collectSessTicketPaths [none] true [] = none := by decide
+
+/-- The shape model's view of a translated group, given the numbering of the key files. -/
+def toShape (num : String → Nat) : Option S_cmd_serverGroup → Shape.Group
+  | some g => { tls := g.TLS.map fun t => { certs := t.Certificates.length, keys := t.SessionKeys.map num },
+                profiles := g.ProfilesEnabled }
+  | none => {}
+
+theorem collectFrom_fold (gs : List Shape.Group) (acc : List Nat) :
+    Shape.collectFrom false gs acc =
+      some (Shape.insertAll (gs.flatMap fun g => match g.tls with | some t => t.keys | none => []) acc) := by
+  induction gs generalizing acc with
+  | nil => simp [Shape.collectFrom, Shape.insertAll]
+  | cons g gs ih =>
+    unfold Shape.collectFrom
+    cases hg : g.tls with
+    | none => simp [ih, hg, List.flatMap_cons]
+    | some t => simp [ih, hg, List.flatMap_cons, Shape.insertAll, List.foldl_append]
+
+/-- **The model's `Shape.collect false` is the source's loop**: the set the model returns is the one
+obtained by adding, in order, exactly the arguments of the `Add` calls of the translated function. -/
+theorem collect_tr (num : String → Nat) (gs : List (Option S_cmd_serverGroup)) :
+    Shape.collect false (gs.map (toShape num)) = some (Shape.insertAll ((gs.flatMap groupKeys).map num) []) := by
+  unfold Shape.collect
+  rw [collectFrom_fold]
+  congr 2
+  induction gs with
+  | nil => rfl
+  | cons g gs ih =>
+    simp only [List.map_cons, List.flatMap_cons, List.map_append, ih]
+    congr 1
+    cases g with
+    | none => simp [toShape, groupKeys]
+    | some g' => cases ht : g'.TLS <;> simp [toShape, groupKeys, ht]
+
+
 end Agd.Tie.TrC20
 
 #print axioms Agd.Tie.TrC20.translation_complete
@@ -1261,3 +1364,6 @@ end Agd.Tie.TrC20
 #print axioms Agd.Tie.TrC20.validateConnLimit_panics_iff
 #print axioms Agd.Tie.TrC20.validateConnLimit_accepts
 #print axioms Agd.Tie.TrC20.validateConnLimit_tr
+#print axioms Agd.Tie.TrC20.collectSessTicketPaths_trace
+#print axioms Agd.Tie.TrC20.collectSessTicketPaths_total
+#print axioms Agd.Tie.TrC20.collect_tr
